@@ -165,7 +165,7 @@ def run_path(prog, lib, h, prefix, timeout_ms, dump_smt=None):
             else:
                 obligations = [('no-panic: ' + ev[1], False)]
         else:
-            obligations = h.post(ex, ctx, outcome) or []
+            obligations = (h.post(ex, ctx, outcome) or []) if getattr(h, '_concrete', None) is None else []
         # vacuity: path condition satisfiable
         r = ex.check()
         if r == z3.unsat:
